@@ -92,6 +92,8 @@ def jx(n):
         # ... and `loop.index0 + 1` is `loop.index` (likewise revindex)
         if t is nodes.Add and l[0] == "attr" and l[1] == ("name", "loop") and r == ("const", 1) and l[2] in ("index0", "revindex0"):
             return ("attr", l[1], l[2][:-1])
+        if BIN[t] == "+" and l == ("const", 1) and r[0] == "attr" and r[1] == ("name", "loop") and r[2] in ("index0", "revindex0"):
+            return ("attr", r[1], r[2][:-1])
         return ("bin", BIN[t], l, r)
     if t is nodes.Neg:
         return ("neg", jx(n.node))
@@ -118,6 +120,10 @@ def jx(n):
     if t is nodes.NSRef:
         return ("attr", ("name", n.name), n.attr)
     return ("unknown", t.__name__)
+
+
+# Jinja's built-in aliases of one filter (jinja2.filters.FILTERS maps both names to the same function): one canonical name
+_FILTER_ALIAS = {"count": "length", "d": "default", "e": "escape"}
 
 
 def path(e):
@@ -373,6 +379,32 @@ def elementwise(seq, elt):
             return base, ("filter", seq[3][0][1], inner, tuple(seq[3][1:]), ())
         return seq, elt
     return seq, elt
+
+
+def _join_as_loop(e, line, rel):
+    """`{{ S | map("f", a) | map("g", b) | join }}` prints, for every item x of S in order, `x | f(a) | g(b)` -- the loop
+    `{% for x in S %}{{ x | f(a) | g(b) }}{% endfor %}` written as a filter pipeline; it is returned as that `for` item, so that
+    rules about how a sequence is pasted read both spellings alike.  Only for `join` without a separator or with a
+    whitespace-only one (layout between the items; it is kept as a text item of the body).  None for anything else."""
+    if not (e[0] == "filter" and e[1] == "join" and not e[4] and len(e[3]) <= 1):
+        return None
+    sep = e[3][0] if e[3] else ("const", "")
+    if sep[0] != "const" or not isinstance(sep[1], str) or sep[1].strip():
+        return None
+    var = ("name", f"_joined{line}")
+    base, elt = elementwise(e[2], var)
+    if any(isinstance(x, tuple) and x == var for x in _subterms(base)):
+        return None
+    body = (("out", elt, line, rel),) + ((("text", sep[1], line, rel),) if sep[1] else ())
+    return ("for", var, base, body, (), line, rel, None)
+
+
+def _subterms(e):
+    yield e
+    if isinstance(e, tuple):
+        for x in e:
+            if isinstance(x, tuple):
+                yield from _subterms(x)
 
 
 def scan(tree, items, env, guards=()):
